@@ -43,7 +43,7 @@ META = {
     "C08": dict(
         engine="rapidcheck pattern generator + deterministic basic-block cost meter (trace-pc-guard)",
         technique="property-based testing with a metamorphic scaling oracle: generated pump patterns measured on a doubling ladder with a deterministic work counter (compiler-inserted basic-block callbacks); the relation checked is W(2k)-W(k) proportional to L(2k)-L(k)",
-        level_text=("All 55 (state, unit) patterns and sampled parameter / delivery / personality combinations scale linearly up to k = 4096 (16384 thorough), except the listed known findings. Exploration: "
+        level_text=("All 63 (state, unit) patterns and sampled parameter / delivery / personality combinations scale linearly up to k = 4096 (16384 thorough), except the listed known findings. Exploration: "
                     "constructs outside the token dictionary are not measured."),
         design_ref="DESIGN.md section 3, C08", level_note="Trusted: the compiler's coverage instrumentation as the work measure. D15a (distinct header names) and D15b (response chunk-size line) are known findings; D46 (empty chunk lines) was repaired."),
     "C09": dict(
